@@ -120,3 +120,10 @@ C('C08', 'round-trip monitor on both FFIs with an independent oracle: the expect
 C('C14', 'record-and-compare monitor inside generated callbacks / extern "Python" functions invoked by compiled C trampolines, over scripted failure scenarios; sys.unraisablehook and onerror observed; ASan backend',
   'Exploration: 30 random signatures per module (all integer sizes, _Bool, char, float, double, pointers, structs by value, void) x {ffi.callback, extern "Python"} x {normal, raises, unconvertible result} x {no error value, error=, onerror returning value/None/raising}; received arguments == passed arguments, result returned unchanged, C caller receives the declared error value or onerror\'s value, nothing escapes into the caller, exactly one error report.',
   'Values are exactly representable in their C types; exception containment is observed at the Python caller of the trampoline.')
+
+C('C12', 'three compiled modules per generated C source: agreement (C helper functions compiled in the same source report sizeof/offsetof/addresses; Python model of arithmetic bodies; C getters/setters for globals), single-point cdef mutations that must raise on use, and the same mutations under \'...\' that must silently take the compiler\'s layout/values',
+  'Exploration: per module 16 structs, 8 #define/static const constants, 4 enums, 10 functions, 6 globals; mutation kinds: field retyped within its class, removed, swapped, array resized, constant value changed, enumerator changed; a mutation must be detected iff it changes an offset, a field size or the total size; unmutated neighbours must stay usable.',
+  'Layout-change expectation from a natural-alignment model cross-checked against the compiler in the agreeing module; field-size mutations are not judged under \'...\' (cffi still checks a field\'s own size there).')
+C('C25', 'identity-encoding monitor on real generated modules (each declared name resolves to its own entry: value/size encodes the index) with hostile identifier sets, plus a stand-alone ASan/UBSan harness around search_sorted() of the tree\'s parse_c_type.c compared with a linear scan (libFuzzer on the thorough tier)',
+  'Exploration: 60 modules per run (compiled API and out-of-line ABI, include() pairs) with 1-400 names per kind grown by prefix/extension/case/ordering-border mutations; every declared global, typedef, struct/union tag and enum tag is looked up through lib attributes, integer_const, def_extern, typeof in several spellings, and about two undeclared neighbours per name must be rejected; harness: 200 sorted tables, all present names and 10x absent ones, all subsets of size <= 3 of a 30-name universe.',
+  'The proof over all identifier sets is out of reach of this technique family (exploration only).')
